@@ -18,8 +18,8 @@
 From Coq Require Import ZArith Bool Arith String List.
 From Coq Require Import QArith.
 From Verif Require Import Lib.Sx Lib.Facts Lib.XferFacts Model.Bytes Model.TransferBytes
-     Model.TransferTimed Model.XferProg
-     Proofs.Bytes Proofs.TransferBytes Proofs.TransferBytesGen Proofs.TransferTimed Proofs.XferProg.
+     Model.TransferTimed Model.XferProg Model.TransferFiles
+     Proofs.Bytes Proofs.TransferBytes Proofs.TransferBytesGen Proofs.TransferTimed Proofs.XferProg Proofs.TransferFiles.
 From Verif Require Gen.Dispatch Gen.Xfer.
 Import ListNotations.
 Open Scope string_scope.
@@ -245,6 +245,35 @@ Theorem C01_size_visible_after_226_whoever_looked : forall verb vm m off old blo
   /\ observed_size (v_run old script) = length (spec_store vm off payload old).
 Proof. exact gen_visible_after_226_observed. Qed.
 Print Assumptions C01_size_visible_after_226_whoever_looked.
+
+(* ---- several files: an acknowledged file keeps its bytes ----
+   fs = map from FULL names to contents; the names are arbitrary strings (x.csv / x.json / x.part /
+   x.csv.part are four different keys). *)
+Theorem C01_upload_touches_its_own_file_only : forall table f vm off n reads f' n',
+  fs_upload table f vm off n reads = Some f' -> n' <> n -> fs_get f' n' = fs_get f n'.
+Proof. exact fs_upload_frame. Qed.
+Print Assumptions C01_upload_touches_its_own_file_only.
+
+Theorem C01_acknowledged_file_survives : forall table f vm off n block payload reads later f1 f2,
+  stor_table_ok table -> store_mode vm -> conforming block payload reads ->
+  fs_upload table f vm off n reads = Some f1 ->
+  fs_history table f1 later = Some f2 ->
+  Forall (fun u => u_name u <> n) later ->
+  fs_get f2 n = match fs_get f n with
+                | Some old => Some (spec_store vm off payload old)
+                | None => if off =? 0 then Some payload else None
+                end.
+Proof. exact acknowledged_file_survives. Qed.
+Print Assumptions C01_acknowledged_file_survives.
+
+(* two uploads in flight at once on different names: every schedule of their block writes leaves what
+   the two uploads one after the other leave *)
+Theorem C01_overlapping_uploads_independent : forall table f ua ub sched f1,
+  u_name ua <> u_name ub ->
+  fs_overlap table f ua ub sched = Some f1 ->
+  fs_history table f [ua; ub] = Some f1.
+Proof. exact overlap_is_sequential. Qed.
+Print Assumptions C01_overlapping_uploads_independent.
 
 (* ---- a missing file ---- *)
 (* REST n (n > 0) + STOR/APPE on a missing path: 451, nothing created, no 226 (inner None);
@@ -494,3 +523,10 @@ Example C01_prog_unclassified_has_no_result :
   /\ prog_stor [XIfOffset [XSeek "FILE"]; XForBlocks "STREAM" "conn.block_size - 1" [XWrite "FILE"]]
             expected_stor_modes WB 0 [] [[1%Z]; []] = None.
 Proof. exact prog_unclassified_has_no_result. Qed.
+
+(* siblings that differ in the last suffix only, and a stored x.part, are different files *)
+Example C01_sibling_names_are_different_files :
+  fs_history expected_stor_modes [("x.part", [9%Z])]
+             [mkUp WB 0 "x.csv" [[1%Z]; []]; mkUp WB 0 "x.json" [[2%Z]; []]; mkUp AB 0 "x.csv" [[3%Z]; []]]
+  = Some [("x.part", [9%Z]); ("x.csv", [1%Z; 3%Z]); ("x.json", [2%Z])].
+Proof. vm_compute. reflexivity. Qed.
